@@ -1,6 +1,6 @@
 (* C18 -- the comparison tool reports the true differences. *)
 From Coq Require Import ZArith List Bool.
-From OV Require Import Base.Bytes Base.Wire Model.Compare Proofs.CompareProofs.
+From OV Require Import Base.Bytes Base.Wire Model.Compare Proofs.CompareProofs Model.CompareParams Proofs.CompareParamsProofs.
 Import ListNotations.
 Open Scope Z_scope.
 
@@ -60,3 +60,63 @@ Theorem C18_reported_deletion_is_real : forall news olds n,
   exists s, In s olds /\ sv_name s = n /\ mem_name n news = false.
 Proof. exact reported_deletion_is_real. Qed.
 Print Assumptions C18_reported_deletion_is_real.
+
+(* ---------- attribute level: Comparison.compare_parameters (Model/CompareParams.v) ---------- *)
+(* comparing a parameter (a message) with itself reports nothing *)
+Theorem C18_parameter_self_empty : forall p, compare_params p p = [].
+Proof. exact compare_self. Qed.
+Print Assumptions C18_parameter_self_empty.
+
+Theorem C18_message_self_empty : forall l, compare_message l l = Some [].
+Proof. exact compare_message_self. Qed.
+Print Assumptions C18_message_self_empty.
+
+(* name, byte position, bit length, semantic and parameter type: each is reported exactly when it differs *)
+Theorem C18_basic_properties_reported_iff_different : forall p1 p2,
+  (In L_name (compare_params p1 p2) <-> q_name p1 <> q_name p2) /\
+  (In L_pos (compare_params p1 p2) <-> q_pos p1 <> q_pos p2) /\
+  (In L_bits (compare_params p1 p2) <-> q_bits p1 <> q_bits p2) /\
+  (In L_sem (compare_params p1 p2) <-> q_sem p1 <> q_sem p2) /\
+  (In L_type (compare_params p1 p2) <-> q_type p1 <> q_type p2).
+Proof. exact reported_iff_differs. Qed.
+Print Assumptions C18_basic_properties_reported_iff_different.
+
+(* a data object edited in place behind an unchanged reference is reported ("Linked DOP object") exactly when the
+   objects or their units differ; apart from constant / default values nothing else is reported for equal objects *)
+Theorem C18_linked_dop_reported_iff_different : forall n t po b s i1 n1 u1 p1 e1 i2 n2 u2 p2 e2,
+  let q1 := mkQ n t po b s (QDop i1 n1 u1 p1 e1) in
+  let q2 := mkQ n t po b s (QDop i2 n2 u2 p2 e2) in
+  (In L_dop (compare_params q1 q2) <-> i1 <> i2 \/ unit_same u1 u2 = false) /\
+  (forall x, In x (compare_params q1 q2) -> x = L_const \/ x = L_default \/ i1 <> i2 \/ unit_same u1 u2 = false).
+Proof. exact dop_reported_iff_differs. Qed.
+Print Assumptions C18_linked_dop_reported_iff_different.
+
+(* a unit modified in place behind unchanged references is reported (the behaviour before the fix commit --
+   the unit was only looked at when the DOP objects themselves differed -- is the refutation below) *)
+Theorem C18_unit_edit_reported : forall n t po b s i nm a a' p e,
+  u_id a <> u_id a' ->
+  In L_dop (compare_params (mkQ n t po b s (QDop i nm (Some a) p e)) (mkQ n t po b s (QDop i nm (Some a') p e))).
+Proof. exact unit_edit_reported. Qed.
+Print Assumptions C18_unit_edit_reported.
+
+Theorem C18_coded_constant_reported_iff_different : forall n t po b s d1 v1 d2 v2,
+  let q1 := mkQ n t po b s (QCoded d1 v1) in
+  let q2 := mkQ n t po b s (QCoded d2 v2) in
+  (In L_dt (compare_params q1 q2) <-> d1 <> d2) /\ (In L_value (compare_params q1 q2) <-> v1 <> v2).
+Proof. exact coded_reported_iff_differs. Qed.
+Print Assumptions C18_coded_constant_reported_iff_different.
+
+(* an empty report means agreement on everything the tool looks at *)
+Theorem C18_nothing_reported_means_equal : forall p1 p2,
+  compare_params p1 p2 = [] ->
+  q_name p1 = q_name p2 /\ q_pos p1 = q_pos p2 /\ q_bits p1 = q_bits p2 /\ q_sem p1 = q_sem p2 /\ q_type p1 = q_type p2 /\
+  cmp_kind (q_kind p1) (q_kind p2) = [].
+Proof. exact nothing_reported. Qed.
+Print Assumptions C18_nothing_reported_means_equal.
+
+Example C18_parameter_example :
+  let dop i := QDop i 5 None (Some 2) (XValue None) in
+  compare_params (mkQ 1 7 (Some 2) (Some 16) None (dop 11)) (mkQ 1 7 (Some 2) (Some 8) None (dop 12)) = [L_bits; L_dop] /\
+  compare_params (mkQ 1 7 (Some 2) (Some 8) None (QCoded 3 34)) (mkQ 1 7 None (Some 8) (Some 9) (QCoded 3 35)) = [L_pos; L_sem; L_value].
+Proof. exact compare_example. Qed.
+Print Assumptions C18_parameter_example.
